@@ -56,11 +56,18 @@ func VerifC06SuffixPairs() {
 	o2 := vNondetStrOf("old2", 2, "ab@~")
 	n2 := vNondetStrOf("new2", 2, "ab@~")
 	vAssume(len(o1) > 0 && len(o2) > 0 && len(n1) > 0 && len(n2) > 0 && o1 != o2)
+	vAssume(len(e) > 0)
 	a, errA := replaceSuffixes(bytesBuf(e+"\n"), map[string]string{o1: n1, o2: n2})
 	b, errB := replaceSuffixes(bytesBuf(e+"\n"), map[string]string{o1: n1, o2: n2})
 	vReach("replaced-twice")
 	vAssert(errA == nil && errB == nil, "C06 suffix replacement does not fail")
 	vAssert(a == b, "C03/C06 a list of suffix-replacement pairs gives the same entries under every map iteration order")
+	// exactly one matching pair is applied; an entry that ends in no key is untouched
+	m1, m2 := strings.HasSuffix(e, o1), strings.HasSuffix(e, o2)
+	w1 := e[:len(e)-min(len(o1), len(e))] + n1
+	w2 := e[:len(e)-min(len(o2), len(e))] + n2
+	ok := (!m1 && !m2 && a == e+"\n") || (m1 && a == w1+"\n") || (m2 && a == w2+"\n")
+	vAssert(ok, "C06 an entry is rewritten by exactly one pair whose key it ends in, and left alone when it ends in none")
 }
 
 func bytesBuf(s string) *bytes.Buffer { return bytes.NewBufferString(s) }
